@@ -173,6 +173,40 @@ def roundtrip(sig):
     return scenario
 
 
+def temperature_ro(sig):
+    """temperature items without write permission refuse writes on both paths (any unit setting), emit nothing"""
+    def scenario(sx):
+        from geckolib.driver import GeckoStructure, GeckoAsyncStructure
+        from . import c03
+        sigs, reps = signatures()
+        a0 = reps[sig]
+        blk = sx.bytes_("block", 16)
+        writes = []
+
+        async def on_async(p, l, v):
+            writes.append(("async", p, l, v))
+        t = [20.0, 98.5, "37", 0][sx.choice("temperature", 4)]
+        for who, st in (("sync", GeckoStructure(lambda p, l, v: writes.append(("sync", p, l, v)))),
+                        ("async", GeckoAsyncStructure(None, on_async))):
+            st.set_status_block(blk)
+            acc = copy.copy(a0)
+            acc.pos, acc._observers, acc.struct = 6, [], st
+            tu = copy.copy(c03._tempunits())
+            tu.pos, tu._observers, tu.struct = 5, [], st
+            st.accessors = {"item": acc, "TempUnits": tu}
+            try:
+                if who == "sync":
+                    acc._set_value(t)
+                else:
+                    drive(acc.async_set_value(t))
+                raised = False
+            except Exception as e:  # noqa
+                raised = "doesn't allow writing" in str(e)
+            sx.check(raised, f"ro.refused.{who}")
+        sx.check(not writes, "ro.no-device-write", lambda: str(writes))
+    return scenario
+
+
 def sequence(sig):
     """write, then the spa changes the sibling bits of the same field, then write again: the second device
     write must preserve the *current* sibling bits (nothing remembered from the first write)"""
@@ -347,7 +381,10 @@ def units(tier):
     sigs, reps = signatures()
     for sig, members in sorted(sigs.items(), key=lambda kv: sig_name(*kv)):
         if sig[0] == "GeckoTempStructAccessor":
-            continue  # decided in IEEE-754 arithmetic by the temperature units below
+            # values are decided in IEEE-754 arithmetic by the temperature units below; write permission here
+            if reps[sig].read_write is None:
+                yield Unit("ro-temperature." + sig_name(sig, members)[4:], temperature_ro(sig), ratio_floats=True)
+            continue
         yield Unit(sig_name(sig, members), roundtrip(sig), max_paths=5000)
     # multi-step: bit-field signatures (a field shared with siblings)
     seen_shapes = set()
